@@ -93,7 +93,7 @@ func c10World(t *testing.T, r *simcore.Run) any {
 		mode = "sampled"
 		for k := 0; k < c10PerRun; k++ {
 			c := mcase{onResp: tp.Bool(1, 2, "onresp")}
-			switch tp.Pick([]uint64{6, 4, 1, 1, 1, 2, 2, 3}, "kind") {
+			switch tp.Pick([]uint64{6, 4, 1, 1, 1, 2, 2, 3, 1}, "kind") {
 			case 0:
 				c.kind, c.bit = "bit", tp.Intn(c10ReqLen*8, "bit")
 			case 1:
@@ -108,6 +108,8 @@ func c10World(t *testing.T, r *simcore.Run) any {
 				c.kind, c.onResp = "replay+uid", true
 			case 6:
 				c.kind, c.onResp = "genuine+trailing-cookie", true
+			case 8:
+				c.kind, c.onResp = "stripped", true
 			case 7:
 				c.kind, c.onResp = "resealed-uid", true
 				c.val = tp.Intn(5, "uidvariant")
@@ -329,6 +331,9 @@ func c10World(t *testing.T, r *simcore.Run) any {
 					must = m1 && m2
 					desc = fmt.Sprintf("response length word at %d: %d -> %d", off, old, nv)
 					return mut, desc, true
+				case "stripped":
+					desc = "the genuine response without its NTS fields (bare 48-byte NTP header)"
+					return append([]byte(nil), g[:48]...), desc, true
 				case "reflect":
 					desc = "the client's own request reflected as a response"
 					return append([]byte(nil), tr.ntp(capturedReq)...), desc, true
@@ -376,20 +381,7 @@ func c10World(t *testing.T, r *simcore.Run) any {
 						uid[0] ^= 0x80
 						desc = "a response sealed under the right key whose identifier differs in its first bit"
 					}
-					mut := append([]byte(nil), g[:48]...)
-					mut = append(mut, 0x01, 0x04, byte((4+len(uid))>>8), byte(4+len(uid)))
-					mut = append(mut, uid...)
-					nonce := make([]byte, 16)
-					for i := range nonce {
-						nonce[i] = byte(0x30 + i)
-					}
-					ct := sealSIV(tr.fetcher().VerifData().S2cKey, nonce, pt, mut)
-					ctPad := (len(ct) + 3) &^ 3
-					flen := 4 + 4 + 16 + ctPad
-					mut = append(mut, 0x04, 0x04, byte(flen>>8), byte(flen), 0, 16, byte(len(ct)>>8), byte(len(ct)))
-					mut = append(mut, nonce...)
-					mut = append(mut, ct...)
-					mut = append(mut, make([]byte, ctPad-len(ct))...)
+					mut := ntsReseal(g, uid, pt, tr.fetcher().VerifData().S2cKey)
 					if _, ok := ntsVerify(mut, tr.fetcher().VerifData().S2cKey); !ok {
 						r.Fail("harness", "c10/reseal", "the re-sealed response does not verify under the session key")
 						return nil, "", false
